@@ -181,11 +181,11 @@ type c07Case struct {
 	FilterPost bool   `json:"filter_post"`
 	CustomErr  bool   `json:"custom_error_handler"`
 	CustomRec  bool   `json:"custom_recover_handler"`
-	Status     int    `json:"status"`         // explicit status written by the handler first (0: none)
+	Status     int    `json:"status"`                        // explicit status written by the handler first (0: none)
 	TryHijack  bool   `json:"handler_tries_to_hijack_first"` // the connection cannot be hijacked (the writer says so): the handler answers normally
-	Forward    bool   `json:"forward"`        // the addressed route hands its Response to a nested Dispatch for the real route
-	Real       bool   `json:"real_server"`    // the container sits behind a real net/http server; an http.Client reads the response
-	Reused     bool   `json:"builder_reused"` // each RouteBuilder goes on to build a sibling route with the opposite encoding setting
+	Forward    bool   `json:"forward"`                       // the addressed route hands its Response to a nested Dispatch for the real route
+	Real       bool   `json:"real_server"`                   // the container sits behind a real net/http server; an http.Client reads the response
+	Reused     bool   `json:"builder_reused"`                // each RouteBuilder goes on to build a sibling route with the opposite encoding setting
 }
 
 var (
